@@ -202,4 +202,36 @@ theorem callback_delivered {home : Sid → HostId} (c : Cluster) (hrun : Running
     rw [flatMap_if_id _ hids' hv hvin' (fun _ => [Out.callback hv.id tok args])]
     rfl
 
+/-! ### the acknowledgement's arguments are never altered on the way -/
+
+/-- every callback invoked in `outs` gets exactly `xs`, every `callback` message in `pubs` carries
+    exactly `xs` -/
+def CarriesArgs (xs : List J) (r : Res) : Prop :=
+  (∀ o ∈ r.outs, ∀ host t a, o = Out.callback host t a → a = xs) ∧
+  (∀ m ∈ r.pubs, ∀ o k n i a, m = Msg.callback o k n i a → a = xs)
+
+theorem trigger_carries (fuel : Nat) (h : Host) (key : Str) (id : Nat) (xs : List J) :
+    CarriesArgs xs (trigger fuel h key id (some xs)) := by
+  induction fuel generalizing h key id with
+  | zero => exact ⟨fun o ho => (nomatch ho), fun m hm => (nomatch hm)⟩
+  | succ n ih =>
+    unfold trigger
+    split
+    · exact ⟨fun o ho => (nomatch ho), fun m hm => (nomatch hm)⟩
+    · rename_i cb _
+      cases cb with
+      | user t =>
+        refine ⟨?_, fun m hm => (nomatch hm)⟩
+        intro o ho host t' a he
+        simp only [List.mem_singleton] at ho
+        subst ho; cases he; rfl
+      | relay origin key' ns' id' =>
+        simp only
+        split
+        · exact ih _ _ _
+        · refine ⟨fun o ho => (nomatch ho), ?_⟩
+          intro m hm o k n i a he
+          simp only [List.mem_singleton] at hm
+          subst hm; cases he; rfl
+
 end Sio.PubSub
